@@ -92,7 +92,7 @@ class EngineBase(PathMgr):
         return smt.simp(z3.Select(seq, Val.r(v)))
 
     def set_seq(self, v, s) -> None:
-        self.st.seq = z3.Store(self.st.seq, Val.r(v), s)
+        self.st.seq = z3.Store(self.st.seq, smt.simp(Val.r(v)), s)
         self.writes.append(('$seq', Val.r(v), ''))
 
     def seq_items(self, s) -> Optional[List[Any]]:
